@@ -166,6 +166,33 @@ def run(ctx):
     results, errors = vlib.eval_cases(os.path.join(work, "coq"), "cases", "From MinkV Require Import Pst.\nOpen Scope list_scope.\n", defs, shard_size=20)
     for e in errors:
         res["corr_broken"].append({"kind": "case-evaluation", "detail": e})
+    # text -> pair tree: the PEG model on the regenerated grammar against pest's own output
+    # (every input that idlc can read as UTF-8, accepted or not, up to a size limit)
+    pdefs = []
+    for k, (tag, txt) in enumerate(inputs):
+        raw = open(os.path.join(work, "cases", str(k), "in.idl"), "rb").read()
+        try:
+            raw.decode("utf-8")
+        except UnicodeDecodeError:
+            continue
+        tree = runs[k][2]
+        if len(raw) > 6000 or (tree is not None and tree[0] == "PARSE-ERROR"):
+            continue
+        dump = "None" if tree is None else "(Some %s)" % pstdump.gallina(pstdump.san_bytes_tree(tree))
+        pdefs.append((k, "", "[chk_peg [%s]%%N %s]" % ("; ".join(str(b) for b in raw), dump)))
+    presults, perrors = vlib.eval_cases(os.path.join(work, "coqp"), "pegcases", "From MinkV Require Import Pst.\nOpen Scope list_scope.\n", pdefs, shard_size=20)
+    for e in perrors:
+        res["corr_broken"].append({"kind": "case-evaluation", "detail": e})
+    peg_hist = {"agree": 0, "differ": 0, "fuel": 0, "accepted": 0}
+    for k, fl in presults.items():
+        tag, txt = inputs[k]
+        if fl[0] == 1:
+            peg_hist["agree"] += 1
+            peg_hist["accepted"] += 1 if runs[k][2] is not None else 0
+        else:
+            peg_hist["differ" if fl[0] == 0 else "fuel"] += 1
+            res["corr_broken"].append({"kind": "correspondence", "detail": "PEG model (regenerated grammar) vs pest disagree on input %d (%s): %s" % (k, tag, "different pair tree or verdict" if fl[0] == 0 else "the model ran out of fuel (contradicts C16_parser_total)"),
+                                       "case": {"property": prop, "tag": tag, "text": txt if len(txt) < 4000 else txt[:2000] + "..."}})
     hist, distinct, seen = {"agree": 0}, 0, set()
     crash_codes = (-signal.SIGSEGV, -signal.SIGBUS, -signal.SIGILL, -signal.SIGABRT, 139, 134, 135, 132)
     for k, (tag, txt) in enumerate(inputs):
@@ -212,6 +239,7 @@ def run(ctx):
         res["failures"].append(f)
     res["coverage"] = {
         "evaluations": len(inputs), "distinct_nontrivial": distinct,
+        "peg_model": peg_hist,
         "rule": "corpus of boundary inputs (array sizes 0/65536, usize-overflowing nests, counts beyond u8, comments between tokens, BOM, NUL, 64-deep "
                 "nesting) plus generated single-file programs with 0-2 byte-level mutations (token deletion/duplication, numeral boundaries, comments at "
                 "token boundaries, control and non-ASCII bytes, very long identifiers, truncation, keyword insertion); each through the debug and release "
